@@ -1,7 +1,7 @@
 (* C07  Receive-side limits are enforced and buffering stays bounded.
    Only statements here; proofs live in coq/proofs/ConnLimitsP.v and ConnLimitsRefuted.v. *)
 From AQ Require Import lib.Base model.RangeSet model.StreamRecv model.ConnLimits model.ConnLimitsSpec
-  gen.C07Consts proofs.RangeSetP proofs.ConnLimitsP proofs.ConnLimitsRefuted.
+  gen.C07Consts proofs.RangeSetP proofs.ConnLimitsP proofs.ConnLimitsAdv proofs.ConnLimitsRefuted.
 
 (* over_limit_closes, part 1: in EVERY state, a STREAM / RESET_STREAM / MAX_STREAM_DATA / STREAM_DATA_BLOCKED
    frame that would create a peer-initiated stream beyond the current MAX_STREAMS value is answered with
@@ -93,6 +93,18 @@ Theorem receiver_buffer_step : forall st off data fin, RB st ->
   (o <> RFinalSizeError -> r_highest st' = Z.max (r_highest st) (off + Zlen data)).
 Proof. exact hf_bounds. Qed.
 Print Assumptions receiver_buffer_step.
+
+(* The value the connection-level checks use (max_data, max_streams_bidi, max_streams_uni) is, after EVERY op
+   sequence, exactly the last value written to the wire in a MAX_DATA / MAX_STREAMS frame -- or the transport
+   parameter if none was written: "exceeding the advertised value" and "exceeding .value" are the same thing,
+   also when MAX_* frames are lost and re-sent.  (adv scans the outcomes of the run for the frames written.) *)
+Theorem advertised_is_enforced : forall cl msd md cb ops os c,
+  run (conn_init cl msd md cb) ops = (os, c) ->
+  l_value (c_data c) = adv FT_MAX_DATA 0 os md /\
+  l_value (c_bidi c) = adv FT_MAX_STREAMS_BIDI 0 os INIT_MAX_STREAMS_BIDI /\
+  l_value (c_uni c) = adv FT_MAX_STREAMS_UNI 0 os INIT_MAX_STREAMS_UNI.
+Proof. exact advertised_is_enforced. Qed.
+Print Assumptions advertised_is_enforced.
 
 (* within_limit_never_accused is REFUTED by the faithful model: a peer that stays within every limit advertised
    on the wire and is final-size consistent (model/ConnLimitsSpec.v) is answered with FLOW_CONTROL_ERROR.
